@@ -109,6 +109,131 @@ def scenario(order):
 
 
 # ------------------------------------------------------------------------------------------------------------
+# KNOWN FINDING oracle/gift-not-delivered/tracker-recreated-without-url, replayed on three real Tubs.  Model: RefsProofs.urlless_ops /
+# live_proxy_without_url (two-party) + GiftsProofs.all_introductions_faithful_refuted (three-party), composed in
+# GiftsCompose.gift_of_recreated_proxy_refuted.  The owner A sends the interface name and the FURL only with the FIRST
+# my-reference of an object (refcount == 1).  History on the connection A -> B:
+#   Send x; RecvOH; DropProxy 0; HandleRefLost; Send x; RecvHO; RecvOH; DropProxy 1; HandleRefLost; RecvOH; Send x; RecvOH
+# B's tracker is freed by the answer to decref #1 while A still counts the reference of send #2 (decref #2 is under way), so
+# send #3 is not a first one and the tracker B re-creates for it has url None: the live proxy works for calls but cannot be
+# handed to a third party.
+URLLESS_SIG = "oracle/gift-not-delivered/tracker-recreated-without-url"
+
+
+def urlless_witness():
+    """-> (problems, state reached?)"""
+    from foolscap.referenceable import RemoteReference
+    E.reset_clock()
+    net = Net()
+    pems = [p for _, p in pems_sorted(3)]
+    A, B, C = make_tub(net, "a", pems[0]), make_tub(net, "b", pems[1]), make_tub(net, "c", pems[2])
+    x = Obj()
+    btarget, csink = Obj(), Obj()
+    fb, fc = B.registerReference(btarget), C.registerReference(csink)
+    got = {}
+    A.getReference(fb).addCallback(lambda r: got.setdefault("bt", r))
+    B.getReference(fc).addCallback(lambda r: got.setdefault("cs", r))
+    settle(net)
+    if set(got) != {"bt", "cs"}:
+        return [("oracle/gift-setup-failed", "url-less witness: setup failed: %r" % (sorted(got),))], False
+    rr = got["bt"]
+    brokerA = rr.tracker.broker
+    link = brokerA.transport.link
+    sA = brokerA.transport.side
+    sB = 1 - sA
+    Bb = [b for b in B.brokers.values() if b.transport.link is link][0]
+
+    def deliver(side, n=None):
+        for i in range(len(link.q[side]) if n is None else n):
+            net.step((link, side))
+
+    rr.callRemoteOnly("take", x); E.turn(); deliver(sA)                       # Send x; RecvOH
+    if len(btarget.got) != 1 or not isinstance(btarget.got[0], RemoteReference):
+        return [("oracle/gift-setup-failed", "url-less witness: first send delivered %r" % (btarget.got,))], False
+    clid = btarget.got[0].tracker.clid
+    first_url = btarget.got[0].tracker.url
+    del btarget.got[:]; gc.collect(); E.turn()                                # DropProxy 0; HandleRefLost (decref #1 queued)
+    rr.callRemoteOnly("take", x); E.turn(); n2 = len(link.q[sA])             # Send x (not first)
+    deliver(sB)                                                               # RecvHO: A processes decref #1, answer queued behind send #2
+    deliver(sA, n2)                                                           # RecvOH: my-reference #2, the tracker is still there
+    del btarget.got[:]; gc.collect(); E.turn()                                # DropProxy 1; HandleRefLost (decref #2 queued)
+    deliver(sA)                                                               # RecvOH: answer #1 -> the tracker is forgotten
+    reached = clid not in Bb.yourReferenceByCLID and brokerA.myReferenceByCLID.get(clid) is not None
+    rr.callRemoteOnly("take", x); E.turn(); deliver(sA)                       # Send x (refcount 1 -> 2: not first); RecvOH
+    if not btarget.got or not isinstance(btarget.got[-1], RemoteReference):
+        return [("oracle/not-delivered", "url-less witness: the third send delivered %r" % (btarget.got,))], reached
+    p3 = btarget.got[-1]
+    has_url = p3.tracker.url is not None
+    deliver(sB); deliver(sA)
+    settle(net)
+    problems = []
+    out = []
+    p3.callRemote("ping").addBoth(out.append)
+    settle(net, out, 1)
+    if out != [1] or x.pings != 1:
+        problems.append(("oracle/call-misrouted", "url-less witness: a call through the re-created proxy returned %r (object reached %d times)"
+                         % ([getattr(r, "value", r) for r in out], x.pings)))
+    res = []
+    got["cs"].callRemote("take", p3).addBoth(res.append)
+    for i in range(8):
+        settle(net, res, 1)
+        if res:
+            break
+        E.clock.advance(1)
+    ok = res == [1] and len(csink.got) == 1 and isinstance(csink.got[0], RemoteReference)
+    if ok:
+        out2 = []
+        csink.got[0].callRemote("ping").addBoth(out2.append)
+        settle(net, out2, 1)
+        if x.pings != 2:
+            problems.append(("oracle/call-misrouted", "url-less witness: the third party's proxy did not reach the original: %r" % (out2,)))
+    else:
+        why = [str(getattr(r, "type", r)) for r in res]
+        problems.append((URLLESS_SIG if not has_url else "oracle/gift-not-delivered",
+                         "A sends x to B three times, B's proxy dropped after the first and second delivery, the answer to B's first decref "
+                         "arrives after B's second decref went out and before the third my-reference: B's tracker is re-created %s "
+                         "(the first delivery's tracker had %s); B holds a live proxy of x (a call through it reached x: %r) and hands "
+                         "it to the third party C: the call carrying it ended with %r, C received %r"
+                         % ("WITHOUT a FURL" if not has_url else "with a FURL", "one" if first_url else "none", out == [1], why, csink.got)))
+    for t in (A, B, C):
+        t.stopService()
+    E.turn()
+    return problems, (reached and not has_url)
+
+
+def name_takeover_witness():
+    """the model's do_register takes a name over like Tub._assignName does (GiftsProofs.introduction_refuted_by_name_takeover):
+    replay on three real Tubs.  -> what the third party's proxy reaches: "old" | "new" | a description of anything else"""
+    from foolscap.referenceable import RemoteReference
+    E.reset_clock()
+    net = Net()
+    pems = [p for _, p in pems_sorted(3)]
+    A, B, C = make_tub(net, "a", pems[0]), make_tub(net, "b", pems[1]), make_tub(net, "c", pems[2])
+    old, new = Thing("old"), Thing("new")
+    sink = Obj()
+    f_old = A.registerReference(old, "service")
+    fc = C.registerReference(sink)
+    got = {}
+    B.getReference(f_old).addCallback(lambda r: got.setdefault("p", r))
+    B.getReference(fc).addCallback(lambda r: got.setdefault("sink", r))
+    run_net(net)
+    if set(got) != {"p", "sink"}:
+        return "setup failed: %r" % (sorted(got),)
+    try:
+        A.registerReference(new, "service")
+    except Exception as e:
+        return "second registration refused: %r" % (e,)
+    r = _call(net, got["sink"], "take", got["p"])
+    if r != 1 or len(sink.got) != 1 or not isinstance(sink.got[0], RemoteReference):
+        return "gift not delivered: %r %r" % (getattr(r, "value", r), sink.got)
+    who = _call(net, sink.got[0], "whoami")
+    for t in (A, B, C):
+        t.stopService()
+    E.turn()
+    return who[0] if isinstance(who, list) else repr(getattr(who, "value", who))
+
+
+# ------------------------------------------------------------------------------------------------------------
 # four Tubs: the gifter holds proxies from TWO origins whose connection-local ids collide
 class Keeper(Referenceable):
     """a registered target that can hand out / take objects"""
@@ -541,6 +666,8 @@ class Factory(Referenceable):
 class GiftSink(Referenceable):
     def __init__(self):
         self.seen = []
+        self.raw = []
+        self.keep_raw = False     # (only the shared-gift family looks at the structure; it empties the list itself)
 
     def _flat(self, x, out):
         if isinstance(x, dict):
@@ -553,14 +680,30 @@ class GiftSink(Referenceable):
             out.append(x)
         return out
 
+    def _snap(self, x):
+        """structural copy: mutable containers are copied (so the snapshot shows the moment of invocation), leaves and
+        immutable containers are the delivered objects themselves"""
+        if isinstance(x, dict):
+            return {k: self._snap(v) for k, v in x.items()}
+        if isinstance(x, list):
+            return [self._snap(y) for y in x]
+        if isinstance(x, set):
+            return set(x)
+        return x
+
     def remote_take(self, container):
         # what the argument looks like AT THE MOMENT the method is invoked
+        if self.keep_raw:
+            self.raw.append(([self._snap(container)], {}))
         self.seen.append((type(container).__name__, self._flat(container, [])))
         return len(self.seen)
 
     def remote_take3(self, a, b, c=None):
+        if self.keep_raw:
+            self.raw.append(([self._snap(a), self._snap(b), self._snap(c)], {}))
         self.seen.append(("args", self._flat([a, b, c], [])))
         return len(self.seen)
+
 
 
 CONTAINERS = {
@@ -575,6 +718,77 @@ CONTAINERS = {
 }
 CONTAINER_TYPE = {"list": "list", "tuple": "tuple", "set": "set", "dict": "dict", "args": "args", "kwargs": "args", "nested": "dict",
                   "list+plain": "list"}
+
+
+# ONE gift-bearing value in several places of one call.  CARRIERS: what the value is (g = the gifter's proxies, one per owner
+# entry); all but "bare" and "list" are immutable, so the receiver's unslicer hands its parents a placeholder until the gifts
+# are introduced, and every further place refers back to that same placeholder.
+CARRIERS = {
+    "bare": lambda g: g[0],
+    "tuple": lambda g: tuple(g),
+    "frozenset": lambda g: frozenset(g[:1]),
+    "tuple-in-tuple": lambda g: (tuple(g),),
+    "tuple-in-frozenset": lambda g: frozenset([tuple(g)]),
+    "tuple-of-list": lambda g: ([g[0]], tuple(g[1:]) or (g[0],)),
+    "list": lambda g: list(g),
+}
+CARRIER_HASHABLE = {"bare", "tuple", "frozenset", "tuple-in-tuple", "tuple-in-frozenset"}
+# SHAPES: where the places are
+SHAPES = {
+    "pos,pos": lambda v: ("take3", [v, v], {}),
+    "kw,kw": lambda v: ("take3", [], dict(a=v, b=v)),
+    "pos,kw": lambda v: ("take3", [v], dict(b=v)),
+    "kw-reversed": lambda v: ("take3", [], dict(c=v, b=v, a=7)),
+    "three": lambda v: ("take3", [v, v, v], {}),
+    "arg+list": lambda v: ("take3", [[v], v], {}),
+    "arg+dict+tuple": lambda v: ("take3", [v], dict(b={"k": v}, c=(v, 1))),
+    "list-twice": lambda v: ("take", [[v, v]], {}),
+    "list-thrice+plain": lambda v: ("take", [[v, 1, v, "x", v]], {}),
+    "tuple-twice": lambda v: ("take", [(v, v)], {}),
+    "dict-values": lambda v: ("take", [{0: v, 1: v}], {}),
+    "nested": lambda v: ("take", [{"k": [v, (v,)], "rest": [v]}], {}),
+    "set+list": lambda v: ("take3", [set([v]), [v]], {}),
+    "frozenset+arg": lambda v: ("take3", [frozenset([v, 5]), v], {}),
+}
+# (not a shape: the value as a dictionary KEY.  DictUnslicer.receiveKey refuses a key that is still incomplete -- "incomplete
+# object as dictionary key" -- and the connection is dropped; a tuple holding a gift is such a key.  Reported, not checked here.)
+SHAPE_NEEDS_HASHABLE = {"set+list", "frozenset+arg"}
+
+
+def backref_windows(data, vocab_reference=None):
+    """cut positions p (first p bytes delivered, then the introductions run, then the rest) at which a banana back-reference
+    -- OPEN 'reference' INT CLOSE -- has received its INT but not yet all of its CLOSE: ReferenceUnslicer has then already
+    fetched the (still incomplete) target and hands it to its parent only when the CLOSE arrives.  -> sorted list of p"""
+    toks = []          # (type byte, header value, end offset, body)
+    i, n = 0, len(data)
+    while i < n:
+        j = i
+        while j < n and data[j] < 0x80:
+            j += 1
+        if j >= n:
+            break
+        val = 0
+        for k in range(j - 1, i - 1, -1):
+            val = val * 128 + data[k]
+        t = data[j]
+        end = j + 1
+        body = None
+        if t in (0x82, 0x85, 0x86, 0x8D):      # STRING, LONGINT, LONGNEG, ERROR: header = length of the body
+            body = data[end:end + val]
+            end += val
+        elif t == 0x84:                        # FLOAT
+            end += 8
+        toks.append((t, val, end, body))
+        i = end
+    out = []
+    for k in range(len(toks) - 3):
+        t0, t1, t2, t3 = toks[k:k + 4]
+        if t0[0] != 0x88 or t2[0] != 0x81 or t3[0] != 0x89 or t3[1] != t0[1]:
+            continue
+        is_ref = (t1[0] == 0x82 and t1[3] == b"reference") or (t1[0] == 0x87 and (vocab_reference is None or t1[1] == vocab_reference))
+        if is_ref:
+            out += list(range(t2[2], t3[2]))
+    return sorted(set(out))
 
 
 class GiftWorld:
@@ -609,34 +823,22 @@ class GiftWorld:
             out.append(_call(self.net, self.got["fa" if o == "a" else "fd"], "make", self.n))
         return out
 
-    def send(self, kind, owners, split, order):
-        """B sends `kind` holding one gift per entry of owners; the carrying message reaches C in two segments cut at byte
-        `split` (None: one piece); between and after the segments the C<->A and C<->D links run in `order`.
-        -> (problems, message length)"""
-        from foolscap.referenceable import RemoteReference
+    def carry(self, meth, args, kw, split, order):
+        """B calls the sink on C; the carrying message reaches C in two segments cut at byte `split` (None: one piece; a
+        function: called with the message's bytes and the vocabulary index of 'reference', returns the position);
+        between and after the segments the C<->A and C<->D links run in `order`.  -> (answers, the message's bytes, split)"""
         net, B, C = self.net, self.B, self.C
-        gifts = self.make(owners)
-        if not all(isinstance(g, RemoteReference) for g in gifts):
-            return [("oracle/gift-setup-failed", "factory returned %r" % (gifts,))], 0
-        names = []
-        for o in owners:
-            pass
-        for k, o in enumerate(owners):
-            fac = self.facA if o == "a" else self.facD
-            nm = "%s%d" % (o, self.n - len(owners) + 1 + k)
-            t = fac.made[nm]()
-            names.append([nm, id(t)] if t is not None else None)
-            del t
-        meth, args, kw = CONTAINERS[kind](gifts)
-        nsent = len([1 for x in GiftSink()._flat(list(args) + list(kw.values()), []) if isinstance(x, RemoteReference)])
         bc = self.link(B, C)
         side = 0 if bc.client_tub is B else 1
-        before = len(self.sink.seen)
         res = []
         self.got["sink"].callRemote(meth, *args, **kw).addBoth(res.append)
         E.turn()
         data = b"".join(x for x in bc.q[side] if x is not None)
         bc.q[side] = [data]
+        if callable(split):
+            # the cut position is chosen from the bytes of THIS message (their number varies with the ids inside)
+            ref = [b.outgoingVocabulary.get(b"reference") for b in B.brokers.values() if b.remote_tubref.getTubID() == C.tubID]
+            split = split(data, ref[0] if ref else None)
         links = {"a": self.link(C, self.A), "d": self.link(C, self.D)}
 
         def others():
@@ -659,6 +861,31 @@ class GiftWorld:
                 break
             E.clock.advance(130)
             run_net(net)
+        return res, data, split
+
+    def send(self, kind, owners, split, order):
+        """B sends `kind` holding one gift per entry of owners; the carrying message reaches C in two segments cut at byte
+        `split` (None: one piece); between and after the segments the C<->A and C<->D links run in `order`.
+        -> (problems, message length)"""
+        from foolscap.referenceable import RemoteReference
+        net, B, C = self.net, self.B, self.C
+        gifts = self.make(owners)
+        if not all(isinstance(g, RemoteReference) for g in gifts):
+            return [("oracle/gift-setup-failed", "factory returned %r" % (gifts,))], 0
+        names = []
+        for o in owners:
+            pass
+        for k, o in enumerate(owners):
+            fac = self.facA if o == "a" else self.facD
+            nm = "%s%d" % (o, self.n - len(owners) + 1 + k)
+            t = fac.made[nm]()
+            names.append([nm, id(t)] if t is not None else None)
+            del t
+        meth, args, kw = CONTAINERS[kind](gifts)
+        nsent = len([1 for x in GiftSink()._flat(list(args) + list(kw.values()), []) if isinstance(x, RemoteReference)])
+        before = len(self.sink.seen)
+        del self.sink.raw[:]
+        res, data, split = self.carry(meth, args, kw, split, order)
         cfg = "%d gifts (owners %s) in %s, message of %d bytes cut at %r, introductions run in order %s" % (
             len(gifts), "".join(owners), kind, len(data), split, "".join(order))
         problems = []
@@ -691,10 +918,130 @@ class GiftWorld:
                 problems.append(("oracle/gift-different-proxy-while-held", "one original arrived as several proxies in one call; " + cfg))
             del proxies, items
         del self.sink.seen[before:]
+        del self.sink.raw[:]
         del gifts, args, kw, seen
         if self.n % 40 < len(owners):
             gc.collect()
         run_net(net)
+        return problems, len(data)
+
+    def send_shared(self, carrier, shape, owners, split, order):
+        """ONE value that holds gifts -- `carrier` builds it from the gifts: the bare proxy, or an immutable container, which the
+        receiver can only build once the gifts inside it are introduced -- occupies SEVERAL places of one call (`shape`: two
+        arguments, positional / keyword, elements of a list / tuple / dict / set, an argument and an element of another
+        argument...); all places but the first travel as references to the first.  Every place must hold, when the method is
+        invoked, a value of the shape that was sent, with ONE proxy per original in all places, through which calls reach the
+        original.  -> (problems, message length)"""
+        from foolscap.referenceable import RemoteReference
+        net = self.net
+        gifts = self.make(owners)
+        if not all(isinstance(g, RemoteReference) for g in gifts):
+            return [("oracle/gift-setup-failed", "factory returned %r" % (gifts,))], 0
+        name_of = {}
+        for k, o in enumerate(owners):
+            fac = self.facA if o == "a" else self.facD
+            nm = "%s%d" % (o, self.n - len(owners) + 1 + k)
+            t = fac.made[nm]()
+            if t is None:
+                return [("oracle/released-early", "%s died although the gifter holds a proxy of it" % nm)], 0
+            name_of[id(gifts[k])] = (nm, id(t))
+            del t
+        v = CARRIERS[carrier](gifts)
+        meth, args, kw = SHAPES[shape](v)
+        before = len(self.sink.seen)
+        del self.sink.raw[:]
+        self.sink.keep_raw = True
+        res, data, split = self.carry(meth, args, kw, split, order)
+        cfg = "%s (gifts from owners %s) sent as %s, message of %d bytes cut at %r, introductions run in order %s" % (
+            carrier, "".join(owners), shape, len(data), split, "".join(order))
+        problems = []
+        raw = list(self.sink.raw)
+        if len(res) != 1 or not isinstance(res[0], int) or len(raw) != 1:
+            problems.append(("oracle/gift-not-delivered", "the call carrying the gifts did not complete exactly once: answers %r, "
+                             "invocations %d; %s" % ([getattr(r, "value", r) for r in res], len(raw), cfg)))
+        else:
+            gargs, gkw = raw[0]
+            if meth == "take3":
+                # the sink's signature is take3(a, b, c=None): keywords land in their positional slots
+                sent = list(args) + [None] * (3 - len(args))
+                for k_, x in kw.items():
+                    sent["abc".index(k_)] = x
+            else:
+                sent = list(args)
+            found = {}        # (name, id of the original) -> the proxies delivered for it
+            bad = []
+
+            def walk(s_, g, path):
+                if isinstance(s_, RemoteReference):
+                    if isinstance(g, RemoteReference):
+                        found.setdefault(name_of[id(s_)], []).append(g)
+                    else:
+                        bad.append("%s: %s instead of a proxy for %s" % (path, type(g).__name__ + ":" + repr(g)[:50], name_of[id(s_)][0]))
+                elif isinstance(s_, (list, tuple)):
+                    if type(g) is not type(s_) or len(g) != len(s_):
+                        bad.append("%s: %s instead of a %s of %d" % (path, type(g).__name__ + ":" + repr(g)[:50], type(s_).__name__, len(s_)))
+                    else:
+                        for i, (a_, b_) in enumerate(zip(s_, g)):
+                            walk(a_, b_, "%s[%d]" % (path, i))
+                elif isinstance(s_, (set, frozenset)):
+                    if type(g) is not type(s_) or len(g) != len(s_):
+                        bad.append("%s: %s instead of a %s of %d" % (path, type(g).__name__ + ":" + repr(g)[:50], type(s_).__name__, len(s_)))
+                    elif len(s_) == 1:
+                        walk(list(s_)[0], list(g)[0], path + "{0}")
+                    else:
+                        # members are unordered: compare what lies inside them, as multisets
+                        fs, fg = GiftSink()._flat(s_, []), GiftSink()._flat(g, [])
+                        ps, pg = [x for x in fs if isinstance(x, RemoteReference)], [x for x in fg if isinstance(x, RemoteReference)]
+                        if len(fs) != len(fg) or len(ps) != len(pg):
+                            bad.append("%s: %r instead of %d proxies" % (path, [type(x).__name__ for x in fg], len(ps)))
+                        else:
+                            found.setdefault(("members of " + path, 0), []).extend(pg)
+                elif isinstance(s_, dict):
+                    if type(g) is not dict or sorted(g, key=repr) != sorted(s_, key=repr):
+                        bad.append("%s: %s instead of a dict with keys %r" % (path, type(g).__name__ + ":" + repr(g)[:50], sorted(s_, key=repr)))
+                    else:
+                        for k_ in s_:
+                            walk(s_[k_], g[k_], "%s[%r]" % (path, k_))
+                elif g != s_ or type(g) is not type(s_):
+                    bad.append("%s: %r instead of %r" % (path, g, s_))
+            walk(sent, gargs, "args")
+            if bad:
+                problems.append(("oracle/gift-identity-lost", "the recipient's method was invoked with something else than what was "
+                                 "sent: %s; %s" % ("; ".join(bad[:4]), cfg)))
+            # one original -> one proxy in all places; calls through it reach the original
+            setlike = [k_ for k_ in found if k_[1] == 0]
+            for key, ps in sorted(found.items(), key=repr):
+                if key in setlike:
+                    continue
+                if any(p is not ps[0] for p in ps):
+                    problems.append(("oracle/gift-different-proxy-while-held", "%s arrived as %d different proxies in the %d places "
+                                     "of one call; %s" % (key[0], len(set(id(p) for p in ps)), len(ps), cfg)))
+                r = _call(net, ps[0], "whoami")
+                if r != [key[0], key[1]]:
+                    problems.append(("oracle/call-misrouted", "a call through the recipient's proxy for %s returned %r, the original "
+                                     "is %r; %s" % (key[0], getattr(r, "value", r), [key[0], key[1]], cfg)))
+            firsts = [(key, ps[0]) for key, ps in found.items() if key not in setlike]
+            for i, (k1, p1) in enumerate(firsts):
+                for k2, p2 in firsts[i + 1:]:
+                    if p1 is p2:
+                        problems.append(("oracle/proxy-shared-by-objects", "%s and %s arrived as one proxy; %s" % (k1[0], k2[0], cfg)))
+            # multi-member sets: the members' proxies, as a multiset, are the proxies found elsewhere for the same originals
+            for key in setlike:
+                want = sorted(id(p) for k_, p in firsts) if firsts else None
+                got_ = sorted(set(id(p) for p in found[key]))
+                if want is not None and not set(got_) <= set(want):
+                    problems.append(("oracle/gift-different-proxy-while-held", "%s hold proxies that differ from those delivered in "
+                                     "the other places of the same call; %s" % (key[0], cfg)))
+            del firsts, found
+        del raw
+        self.sink.keep_raw = False
+        del self.sink.seen[before:]
+        del self.sink.raw[:]
+        del gifts, args, kw, v
+        if self.n % 40 < len(owners):
+            gc.collect()
+        run_net(net)
+        self.last_split = split
         return problems, len(data)
 
     def close(self):
@@ -712,8 +1059,129 @@ def multi_gifts(ctx):
     gc.disable()
     try:
         _multi_gifts(ctx)
+        _shared_gifts(ctx)
     finally:
         gc.enable()
+
+
+def shared_combos():
+    """fixed list (no random choice): every carrier x every shape x gifts from one owner / from two owners"""
+    out = []
+    for carrier in CARRIERS:
+        for shape in SHAPES:
+            if shape in SHAPE_NEEDS_HASHABLE and carrier not in CARRIER_HASHABLE:
+                continue
+            for owners in ("a", "ad"):
+                out.append((carrier, shape, owners))
+    return out
+
+
+WINDOW_SIG = "oracle/gift-identity-lost/back-reference-closed-after-target-completed"
+# fixed witnesses of that window: the parent that is handed the already-completed placeholder is a list / a dict / a tuple
+WINDOW_WITNESSES = [("tuple", "list-twice", "a"), ("tuple", "dict-values", "a"), ("tuple", "tuple-twice", "a")]
+
+
+def _cut_outside(pos):
+    """cut at `pos` or the next position that does not lie between the INT and the end of the CLOSE of a back-reference"""
+    def choose(data, vocab_reference):
+        win = set(backref_windows(data, vocab_reference))
+        n = len(data)
+        p = 1 + (pos - 1) % (n - 1)
+        for k in range(n):
+            q = 1 + (p - 1 + k) % (n - 1)
+            if q not in win:
+                return q
+        return None
+    return choose
+
+
+def _cut_window(j):
+    """cut at the j-th position (from the end: the LAST back-reference of the message first) inside a back-reference"""
+    def choose(data, vocab_reference):
+        win = backref_windows(data, vocab_reference)
+        return win[-1 - j] if j < len(win) else None
+    return choose
+
+
+def _shared_gifts(ctx):
+    """one gift-bearing value in several places of one call: every combination once in one piece, and with the carrying message
+    cut (quick: at one position per combination, rotating through the message; thorough: every 4th position, the residue
+    class rotating, both introduction orders).  Cuts that fall between the INT and the CLOSE of a back-reference are a family
+    of their own (WINDOW_SIG: ReferenceUnslicer has fetched the still incomplete target and hands it on at its CLOSE):
+    three fixed witnesses in every run, every such position in the thorough tier."""
+    with quiet():
+        state = dict(W=None, n=0, nfailed=0)
+        seen_sigs = set()
+
+        def one(carrier, shape, owners, split, order, window):
+            """-> (problems, message length) ; reports"""
+            try:
+                if state["W"] is None:
+                    state["W"] = GiftWorld()
+                    if not state["W"].ok:
+                        state["W"] = None
+                        return [("oracle/gift-setup-failed", "multi-gift world could not be set up")], 0
+                W = state["W"]
+                pr, length = W.send_shared(carrier, shape, list(owners), split, order)
+                used = W.last_split
+            except Exception:
+                import traceback
+                pr, length, used = [("oracle/gift-exception", "shared-gift scenario raised: %s" % traceback.format_exc()[-800:])], 0, None
+            if window and used is None:
+                return [], length           # (this message has no such position)
+            if window:
+                pr = [((WINDOW_SIG, "a back-reference to a value that holds a gift received its INT, then the gift's introduction "
+                        "completed, then its CLOSE arrived: " + text) if sig in ("oracle/gift-identity-lost", "oracle/gift-not-delivered")
+                       else (sig, text)) for sig, text in pr]
+            state["n"] += 1
+            ctx.case(["sharedgift", carrier, shape, owners, used, order], nontrivial=carrier not in ("bare", "list"))
+            ctx.hist("sharedgift_outcome", "held" if not pr else pr[0][0])
+            ctx.hist("sharedgift_carrier", carrier)
+            ctx.hist("sharedgift_cut", "whole" if used is None else ("inside-back-reference" if window else "elsewhere"))
+            for sig, text in pr:
+                if sig not in seen_sigs:
+                    seen_sigs.add(sig)
+                    ctx.fail(sig, text, replay=dict(scenario="shared-gift: one gift-bearing value in several places of one call "
+                                                    "(B gives C proxies of objects living on A / D)", carrier=carrier, shape=shape,
+                                                    owners=owners, split=used, order=order))
+            if pr:
+                # the world may be damaged (a lost connection, a call that never completes): start afresh
+                try:
+                    state["W"].close()
+                except Exception:
+                    pass
+                state["W"] = None
+                if not window:
+                    state["nfailed"] += 1
+            return pr, length
+
+        combos = shared_combos()
+        # 1. the fixed witnesses of the back-reference window
+        for carrier, shape, owners in WINDOW_WITNESSES:
+            one(carrier, shape, owners, _cut_window(0), "ad", True)
+        # 2. every combination
+        for idx, (carrier, shape, owners) in enumerate(combos):
+            pr, length = one(carrier, shape, owners, None, "ad", False)
+            if length > 2 and not pr:
+                if ctx.tier == "quick":
+                    cuts = [(1 + (idx * 37) % (length - 1), "da" if idx % 2 else "ad")]
+                else:
+                    cuts = [(c, o) for o in ("ad", "da") for c in range(1 + (idx + (o == "da")) % 4, length, 4)]
+                for pos, order in cuts:
+                    pr, _ = one(carrier, shape, owners, _cut_outside(pos), order, False)
+                    if pr:
+                        break
+                if ctx.tier != "quick" and carrier not in ("bare", "list"):
+                    for j in range(12):
+                        pr, _ = one(carrier, shape, owners, _cut_window(j), "da" if j % 2 else "ad", True)
+            if state["nfailed"] >= 8:
+                break       # (enough witnesses; every further one costs a new set of Tubs)
+        ctx.extra["sharedgift_cases"] = state["n"]
+        if state["W"] is not None:
+            try:
+                state["W"].close()
+            except Exception:
+                pass
 
 
 def _multi_gifts(ctx):
@@ -830,3 +1298,101 @@ def asyncand_check(ctx, model_ok):
                     ctx.fail("correspondence/asyncand", "inputs %r after %d completions: model fired=%r, AsyncAND fired=%r"
                              % (flags, j, model[(tuple(flags), j)], f), replay=dict(inputs=flags, j=j), has_input=False)
     ctx.extra["asyncand_cases"] = len(cases)
+
+
+# ------------------------------------------------------------------------------------------------------------
+# ONE placeholder Deferred subscribed to by several parents (model: Refs.fire).  The real unslicers are driven through
+# their own receiveChild (that is where they subscribe their update callback), then the Deferred fires with the value.
+PLACE_KINDS = ["PList", "PTuple", "PSet", "PDict", "PArg"]
+
+
+class _FakeProtocol:
+    debugReceive = False
+    exploded = None
+
+    def setObject(self, count, obj):
+        pass
+
+    def getObject(self, count):
+        return None
+
+
+def _make_place(kind, d):
+    """-> function returning what the place holds (the slot that was given the Deferred d)"""
+    from foolscap.slicers.list import ListUnslicer
+    from foolscap.slicers.tuple import TupleUnslicer
+    from foolscap.slicers.set import SetUnslicer
+    from foolscap.slicers.dict import DictUnslicer
+    from foolscap.call import ArgumentUnslicer
+    cls = dict(PList=ListUnslicer, PTuple=TupleUnslicer, PSet=SetUnslicer, PDict=DictUnslicer, PArg=ArgumentUnslicer)[kind]
+    u = cls()
+    u.protocol = _FakeProtocol()
+    u.start(0)
+    if kind == "PDict":
+        u.receiveChild("k")
+        u.receiveChild(d)
+        return lambda: u.d.get("k")
+    if kind == "PArg":
+        u.receiveChild(1)            # one positional argument
+        u.receiveChild(d)
+        return lambda: u.args[0]
+    u.receiveChild(d)
+    if kind == "PSet":
+        return lambda: (list(u.set)[0] if len(u.set) == 1 else list(u.set))
+    return lambda: u.list[0]
+
+
+def placeholder_cases():
+    """every sequence of 1..3 places, and a few longer ones; -> [(kinds, what each place holds after the Deferred fired)]"""
+    import itertools
+    from twisted.internet import defer
+    seqs = [list(s) for n in (1, 2, 3) for s in itertools.product(PLACE_KINDS, repeat=n)]
+    seqs += [PLACE_KINDS, PLACE_KINDS[::-1], ["PArg"] * 5, ["PList", "PArg", "PList", "PArg", "PTuple", "PDict"]]
+    out = []
+    for kinds in seqs:
+        d = defer.Deferred()
+        value = ("the completed tuple", len(out))
+        try:
+            readers = [_make_place(k, d) for k in kinds]
+            d.callback(value)
+            held = [r() for r in readers]
+        except Exception as e:
+            held = ["exception: %r" % (e,)] * len(kinds)
+        out.append((kinds, [1 if h is value else (0 if h is None else -1) for h in held], [repr(h)[:60] for h in held]))
+    return out
+
+
+def placeholder_check(ctx, model_ok):
+    from harness import common
+    with quiet():
+        cases = placeholder_cases()
+    reported = False
+    for kinds, codes, shown in cases:
+        ctx.case(["placeholder", kinds], nontrivial=len(kinds) >= 2)
+        ctx.hist("placeholder_outcome", "held" if all(c == 1 for c in codes) else "lost")
+        if not all(c == 1 for c in codes) and not reported:
+            reported = True
+            ctx.fail("oracle/gift-identity-lost/placeholder-not-updated-everywhere",
+                     "one placeholder Deferred was handed to the parents %r (each subscribed through its own receiveChild) and then "
+                     "fired with the completed value: the parents hold %r -- a value that holds a gift and occurs in several "
+                     "places of one call arrives in some of them as something else" % (kinds, shown),
+                     replay=dict(places=kinds, held=shown))
+    if not model_ok:
+        return
+    rows = [k for k, _, _ in cases]
+    body = ("Local Open Scope Z_scope.\nEval vm_compute in map (fun ps => map (fun o => match o with Some _ => 1 | None => 0 end) (fire (Some 5) ps)) %s.\n"
+            % common.coq_list([common.coq_list(k) for k in rows]))
+    try:
+        (vals,) = ctx.coq_eval("C08_placeholder_cases", body, requires=["Verif.lib.PyLite", "Verif.gen.RefsGen", "Verif.lib.Refs"])
+    except common.CoqEvalError as e:
+        ctx.fail("correspondence-broken", "fire could not be evaluated: " + str(e)[-800:], has_input=False)
+        return
+    bad = 0
+    for (kinds, codes, shown), m in zip(cases, vals):
+        ctx.traces += 1
+        if list(m) != codes:
+            bad += 1
+            if bad == 1:
+                ctx.fail("correspondence/shared-placeholder", "places %r: the model says %r (1 = holds the completed value), the unslicers "
+                         "hold %r" % (kinds, list(m), shown), replay=dict(places=kinds), has_input=False)
+    ctx.extra["placeholder_cases"] = len(cases)
